@@ -21,18 +21,20 @@ SIGNAME = {v: k for k, v in SIGNUM.items()}
 GRACEFUL = ("INT", "TERM")
 TID = {"m": 0, "w1": 1, "w2": 2}
 TNAME = {v: k for k, v in TID.items()}
-DEFECTS = ["exit_ignores_rings", "no_final_flush", "no_once_regen", "reraise_before_flush", "exit0_for_fatal",
-           "spawn_unmasked", "cleanup_nonempty"]
+# seeded defects of the model: (Variant, WaitEmpty under which it is a defect)
+DEFECTS = [("exit_ignores_rings", True), ("no_final_flush", True), ("no_once_regen", True), ("reraise_before_flush", True),
+           ("exit0_for_fatal", True), ("spawn_unmasked", True), ("cleanup_nonempty", True),
+           ("reraise_before_flush", False), ("graceful_exit_no_flush", False)]
 INVS = "StopOK RestartOK ExitOK SigOK DiskShape TypeOK"
 ALL_SIGS = '{"SEGV","ABRT","FPE","ILL","INT","TERM"}'
 
 
-def _cfg(name, workers, stmts, starts, sigs, soft=100, raises=1, variant="code", lifecyclers='{"m"}', sym=True):
+def _cfg(name, workers, stmts, starts, sigs, soft=100, raises=1, variant="code", lifecyclers='{"m"}', sym=True, wait=True):
     ws = "{" + ",".join(workers) + "}"
     text = ("SPECIFICATION Spec\nCONSTANTS\n Main = \"m\"\n Workers = %s\n Lifecyclers = %s\n MaxStmts = %d\n"
             " MaxStarts = %d\n Sigs = %s\n SoftLimit = %d\n MaxRaise = %d\n Variant = \"%s\"\n Export = FALSE\n"
-            "INVARIANTS %s\n%sCHECK_DEADLOCK TRUE\n"
-            % (ws, lifecyclers, stmts, starts, sigs, soft, raises, variant, INVS,
+            " WaitEmpty = %s\nINVARIANTS %s\n%sCHECK_DEADLOCK TRUE\n"
+            % (ws, lifecyclers, stmts, starts, sigs, soft, raises, variant, "TRUE" if wait else "FALSE", INVS,
                "SYMMETRY WorkerSymmetry\n" if sym and len(workers) > 1 else ""))
     return vlib.write_cfg(vlib.BUILD / "cfg" / (name + ".cfg"), text)
 
@@ -51,6 +53,7 @@ def model_check(ck, quick):
         runs.append(("MC_Life_q1", _cfg("MC_Life_q1", ["w1"], 2, 2, ALL_SIGS), False))
         runs.append(("MC_Life_q2", _cfg("MC_Life_q2", ["w1"], 2, 1, '{"SEGV","INT"}', soft=1, raises=2), False))
         runs.append(("MC_Life_qcov", _cfg("MC_Life_qcov", ["w1"], 1, 2, '{"SEGV","INT"}'), True))
+        runs.append(("MC_Life_qnowait", _cfg("MC_Life_qnowait", ["w1"], 2, 2, '{"SEGV","INT"}', wait=False), False))
     else:
         runs.append(("MC_Life_t1", _cfg("MC_Life_t1", ["w1"], 3, 2, ALL_SIGS), False))
         runs.append(("MC_Life_tcov", _cfg("MC_Life_tcov", ["w1"], 2, 2, '{"SEGV","INT"}'), True))
@@ -58,6 +61,7 @@ def model_check(ck, quick):
         runs.append(("MC_Life_t3", _cfg("MC_Life_t3", ["w1"], 2, 2, '{"SEGV","INT"}', soft=1, raises=2), False))
         runs.append(("MC_Life_t4", _cfg("MC_Life_t4", ["w1"], 2, 2, '{"SEGV","INT"}', lifecyclers='{"m","w1"}'), False))
         runs.append(("MC_Life_t5", _cfg("MC_Life_t5", ["w1", "w2"], 3, 1, "{}"), False))
+        runs.append(("MC_Life_t6", _cfg("MC_Life_t6", ["w1"], 3, 2, ALL_SIGS, wait=False), False))
     cov = {}
     for name, cfg, coverage in runs:
         r = vlib.tlc_must("Life", cfg, coverage=coverage, timeout=150 if quick else 1500, keep_out=False)
@@ -72,8 +76,10 @@ def model_check(ck, quick):
             raise vlib.Infra(f"vacuity: action {act} of Life never enabled")
     ck.extra["action_coverage"] = {a: list(cov[a]) for a in sorted(cov)}
     # every seeded defect of the model must be caught by an invariant (self-test against vacuity)
-    def one(v):
-        cfg = _cfg("MC_Life_var_" + v, ["w1"], 2, 2, '{"SEGV","INT"}', variant=v)
+    def one(vw):
+        v, w = vw
+        v = v if w else v + "@nowait"
+        cfg = _cfg("MC_Life_var_" + v, ["w1"], 2, 2, '{"SEGV","INT"}', variant=vw[0], wait=w)
         return v, vlib.tlc("Life", cfg, workers=4, timeout=300, heap="2g", keep_out=False)
     caught = {}
     with ThreadPoolExecutor(max_workers=4) as ex:
@@ -91,7 +97,7 @@ def model_check(ck, quick):
 def export_programs(ck, quick):
     text = ("SPECIFICATION SimSpec\nCONSTANTS\n Main = \"m\"\n Workers = {\"w1\",\"w2\"}\n Lifecyclers = {\"m\",\"w1\"}\n"
             " MaxStmts = 3\n MaxStarts = %d\n Sigs = %s\n SoftLimit = 100\n MaxRaise = 1\n Variant = \"code\"\n"
-            " Export = TRUE\nINVARIANTS %s\nACTION_CONSTRAINT ExportA SimThin\nCHECK_DEADLOCK FALSE\n"
+            " Export = TRUE\n WaitEmpty = TRUE\nINVARIANTS %s\nACTION_CONSTRAINT ExportA SimThin\nCHECK_DEADLOCK FALSE\n"
             % (2 if quick else 3, ALL_SIGS, INVS))
     cfg = vlib.write_cfg(vlib.BUILD / "cfg" / "Sim_Life.cfg", text)
     r = vlib.tlc_must("Life", cfg, simulate=600 if quick else 4000, depth=500, seed=ck.seed, deadlock=False,
@@ -192,7 +198,7 @@ def make_scenarios(ck, behs, quick, rng):
             if nostart > 4:
                 continue
         picked.append((steps, info, outcome))
-    scns, rr = [], {}
+    scns, rr, nw = [], {}, {}
     for i, (steps, info, outcome) in enumerate(picked):
         end = steps[-1]
         has_sig = end[0] == "G"
@@ -202,7 +208,21 @@ def make_scenarios(ck, behs, quick, rng):
              "soft": 1 if rng.random() < 0.15 else 0,
              "sleep": rng.choice([-1, -1, -1, 0, 2000, 2000]),
              "sh": 1 if has_sig or rng.random() < 0.5 else 0,
-             "named": 1 if rng.random() < 0.3 else 0}
+             "named": 1 if rng.random() < 0.3 else 0, "wait": 1}
+        # wait_for_queues_to_empty_before_exit = false: the stop/exit clause promises nothing then, the signal clause
+        # still holds. Every second SIGINT/SIGTERM scenario, every third fatal one and every fifth stop/exit one
+        # run that way; the signal ones with a backend that is kept behind (hold gate, else slow gate / soft limit 1
+        # / long sleep), and turn by turn, so that what the handler must flush is still unconsumed when it runs
+        kind = "graceful" if has_sig and end[2] in GRACEFUL else "fatal" if has_sig else "plain"
+        nw[kind] = nw.get(kind, 0) + 1
+        if nw[kind] % {"graceful": 2, "fatal": 3, "plain": 5}[kind] == 0:
+            a["wait"] = 0
+            if has_sig:
+                a["sync"] = "turn"
+                j = nw[kind] // {"graceful": 2, "fatal": 3}[kind]
+                a["gate"] = [1, 1, 2, 1][j % 4]
+                a["soft"] = 1 if j % 4 == 3 else a["soft"]
+                a["sleep"] = 2000 if j % 4 == 2 else a["sleep"]
         toks = []
         for op, t, x in steps:
             if op in "LSPF":
@@ -230,8 +250,8 @@ def make_scenarios(ck, behs, quick, rng):
 
 def scn_line(s, sid=None):
     a = s["attrs"]
-    return "%s %s %d %s %d %d %d %d %s" % (sid or s["id"], a["clock"], a["gate"], a["sync"], a["soft"], a["sleep"],
-                                           a["sh"], a["named"], " ".join(s["steps"]))
+    return "%s %s %d %s %d %d %d %d %d %s" % (sid or s["id"], a["clock"], a["gate"], a["sync"], a["soft"], a["sleep"],
+                                              a["sh"], a["named"], a["wait"], " ".join(s["steps"]))
 
 
 # ------------------------------------------------------------------------------------------- 3. real executions
@@ -291,9 +311,9 @@ def norm_status(st):
     return {"kind": st["kind"], "code": 0, "sig": "-"}
 
 
-def trace_of(o):
+def trace_of(o, wait=True):
     """One observation -> TraceLife lines (the child's events in counter order, then what the parent saw)."""
-    L = [{"op": "reset"}]
+    L = [{"op": "reset", "wait": bool(wait)}]
     for e in o["events"]:
         k = e["e"]
         if k == "StartRet":
@@ -316,7 +336,7 @@ def validate(ck, observations):
     """observations: list of (scenario, obs). Returns {index: [why,...]} of contract rejections (TLC's verdict)."""
     lines, owner = [], []
     for i, (s, o) in enumerate(observations):
-        t = trace_of(o)
+        t = trace_of(o, s["attrs"].get("wait", 1))
         lines += t
         owner += [i] * len(t)
     d = vlib.scratch("tv")
@@ -348,6 +368,7 @@ def corrupted(pairs):
     would be broken. Every one of them must be rejected by the contract."""
     import copy
     out = []
+    isn = lambda l: norm_lines([l])[0]["k"] == "n"
     def first(pred):
         for s, o in pairs:
             if pred(s, o):
@@ -361,7 +382,8 @@ def corrupted(pairs):
                     any(x["e"] == "LogRet" for x in ev[:i]):
                 return True
         return False
-    c = first(stop_pred)
+    waits = lambda s: s["attrs"]["wait"] == 1
+    c = first(lambda s, o: waits(s) and stop_pred(s, o))
     if c:
         s, o = c
         ev = o["events"]
@@ -372,9 +394,31 @@ def corrupted(pairs):
         if hit:
             ev[i]["lines"].remove(hit[-1])
             out.append(("stop snapshot lacks a completed statement", s, o))
+    # ... but with wait_for_queues_to_empty_before_exit = false the same loss is NOT against C07 (must be accepted)
+    c = first(lambda s, o: not waits(s) and s["steps"][-1][0] in "XR" and any(e["e"] == "StartRet" for e in o["events"])
+              and any(e["e"] == "LogRet" for e in o["events"]))
+    if c:
+        s, o = c
+        for e in o["events"]:
+            if e["e"] == "StopRet":
+                e["lines"] = []
+        o["lines"] = []
+        out.append(("ACCEPT wait=false: nothing in the file after stop and exit", s, o))
+    # ... while the signal clause holds regardless of that option
+    c = first(lambda s, o: not waits(s) and s["steps"][-1][0] == "G" and any(isn(l) for l in o["lines"]))
+    if c:
+        s, o = c
+        o["lines"] = [l for l in o["lines"] if not isn(l)]
+        out.append(("wait=false: notice removed", s, o))
+        c2 = first(lambda s2, o2: s2 is s)
+        s, o = c2
+        tgt = int(s["steps"][-1][1])
+        own = [l for l in o["lines"] if l.startswith(f"s {tgt} ")]
+        if own:
+            o["lines"].remove(own[-1])
+            out.append(("wait=false: signalled thread's statement removed", s, o))
     # the notice is missing / the status is wrong after a handled signal
-    isn = lambda l: norm_lines([l])[0]["k"] == "n"
-    c = first(lambda s, o: s["steps"][-1][0] == "G" and any(isn(l) for l in o["lines"]))
+    c = first(lambda s, o: waits(s) and s["steps"][-1][0] == "G" and any(isn(l) for l in o["lines"]))
     if c:
         s, o = c
         o2 = copy.deepcopy(o)
@@ -391,7 +435,7 @@ def corrupted(pairs):
             o3["lines"].append(o3["lines"].pop(own[-1]))      # the thread's last statement now FOLLOWS the notice
             out.append(("statement after the notice", s, o3))
     # exit: wrong code / a completed statement missing
-    c = first(lambda s, o: s["steps"][-1][0] in "XR" and any(e["e"] == "StartRet" for e in o["events"]) and o["lines"]
+    c = first(lambda s, o: waits(s) and s["steps"][-1][0] in "XR" and any(e["e"] == "StartRet" for e in o["events"]) and o["lines"]
               and not any(e["e"] == "StopCall" for e in o["events"]))
     if c:
         s, o = c
@@ -417,6 +461,9 @@ def signature(s, o, whys):
     """canonical shape class of a rejected execution (for known_findings matching)"""
     why, op = whys[0]
     end = s["steps"][-1]
+    if not s["attrs"].get("wait", 1):
+        a2 = dict(s["attrs"], wait=1)
+        return signature(dict(s, attrs=a2), o, whys) + ":wait=false"
     if op == "start":
         n = sum(1 for e in o["events"] if e["e"] == "StartRet")
         return "start:not-running:%s" % ("first" if n <= 1 else "restart")
@@ -467,8 +514,11 @@ def run(ck):
     ck.rule = ("programs = frontend projections of seeded TLC simulation behaviours of Life (main + 2 workers, <= 3 statements "
                "each, <= 2/3 starts, stop/exit/return/six signals at any statement boundary, workers alive or finished), "
                "deduplicated, sampled round-robin over shape classes, crossed with seeded run attributes (clock sys/tsc, gate "
-               "none/hold/slow, turn/free threads, soft limit, backend sleep, signal flavour raise/fault/pthread_kill/kill); "
-               "non-trivial = a backend was started and at least one log call returned before the stop/exit/signal request; "
+               "none/hold/slow, turn/free threads, soft limit, backend sleep, wait_for_queues_to_empty_before_exit true/false "
+               "(false for every 2nd SIGINT/SIGTERM, 3rd fatal, 5th stop/exit scenario, the signal ones with a held/slow "
+               "backend), signal flavour raise/fault/pthread_kill/kill); "
+               "non-trivial = a backend was started and at least one log call returned before the stop/exit/signal request "
+               "(and, with wait=false, the ending is a signal); "
                "distinct by (program, attributes)")
     ck.assumptions = [
         "signals delivered inside a log call and async-signal-safety of the handler are outside C07 and not exercised",
@@ -481,6 +531,9 @@ def run(ck):
         "and not run on the real code (the real process hangs there: flush_log waits for ever, on_alarm's re-raise stays "
         "pending because the signal is blocked inside its own handler)",
         "statements logged while no backend runs are only asserted once a later start/stop pair covers them",
+        "wait_for_queues_to_empty_before_exit is a run attribute: with false the stop()/exit clause promises nothing (only "
+        "status and restart are judged there), the signal clause (signalled thread's statements, notice, status) is "
+        "asserted regardless; Life.tla has the same switch (WaitEmpty)",
         "duplicates, cross-thread order and is_running() after stop are not C07 (reported as drift if unexpected)",
         "exit()/return happen only when no other thread is logging (workers joined or parked): logging during static "
         "destruction is a user-program race; concurrent logging is exercised against stop() and fatal signals",
@@ -502,6 +555,20 @@ def run(ck):
         mix[k] = mix.get(k, 0) + 1
         for a in ("clock", "gate", "sync"):
             mix[f"{a}={s['attrs'][a]}"] = mix.get(f"{a}={s['attrs'][a]}", 0) + 1
+        if not s["attrs"]["wait"]:
+            kd = "plain" if e[0] != "G" else "graceful" if SIGNAME[int(e.split(":")[1])] in GRACEFUL else "fatal"
+            mix[f"nowait:{kd}"] = mix.get(f"nowait:{kd}", 0) + 1
+            st = s["steps"]
+            # the hold gate stops the backend at the first statement it meets after the (last effective) start:
+            # anything logged since the stop before it
+            up, since = False, 0
+            for i, x in enumerate(st):
+                if x[0] == "S" and not up:
+                    up = True
+                elif x[0] == "P":
+                    up, since = False, i
+            if e[0] == "G" and s["attrs"]["gate"] == 1 and any(x[0] == "L" for x in st[since:]):
+                mix[f"nowait:{kd}:backend-held"] = mix.get(f"nowait:{kd}:backend-held", 0) + 1
         if sum(1 for x in s["steps"] if x[0] == "S") >= 2:
             mix["restart"] = mix.get("restart", 0) + 1
         if any(x[0] == "P" for x in s["steps"]):
@@ -514,6 +581,10 @@ def run(ck):
     for k in need:
         if not mix.get(k):
             raise vlib.Infra(f"vacuity: no scenario of kind {k} in this run")
+    for k, n in (("nowait:graceful", 8), ("nowait:graceful:backend-held", 4), ("nowait:fatal", 6),
+                 ("nowait:fatal:backend-held", 3), ("nowait:plain", 4)):
+        if mix.get(k, 0) < n:
+            raise vlib.Infra(f"vacuity: only {mix.get(k, 0)} scenarios of kind {k} (want >= {n})")
     if len(scns) < (150 if quick else 1500):
         raise vlib.Infra(f"too few scenarios ({len(scns)})")
     # 3. real executions
@@ -526,7 +597,7 @@ def run(ck):
         ev = o["events"]
         req = [i for i, e in enumerate(ev) if e["e"] in ("StopCall", "EndCall")]
         nontriv = any(e["e"] == "StartRet" for e in ev) and bool(req) and \
-            any(e["e"] == "LogRet" for e in ev[:req[-1]])
+            any(e["e"] == "LogRet" for e in ev[:req[-1]]) and (s["attrs"]["wait"] == 1 or s["steps"][-1][0] == "G")
         ck.case(scn_line(s, "-"), nontriv)
     ck.extra["children_run"] = len(pairs)
     ck.extra["child_ms_median"] = sorted(o["ms"] for _, o in pairs)[len(pairs) // 2]
@@ -540,7 +611,10 @@ def run(ck):
     if bad:
         rb = validate(ck, [(s, o) for _, s, o in bad])
         for i, (what, s, o) in enumerate(bad):
-            if i not in rb:
+            if what.startswith("ACCEPT"):
+                if i in rb:
+                    raise vlib.Infra(f"the contract rejects what C07 does not forbid ({what}): {scn_line(s)}: {rb[i]}")
+            elif i not in rb:
                 raise vlib.Infra(f"vacuity: the contract accepts a corrupted observation ({what}): {scn_line(s)}")
         ck.extra["corrupted_observations_rejected"] = len(bad)
     ck.extra["rejected_first_pass"] = len(rej)
@@ -579,7 +653,7 @@ def run(ck):
         seen = f"file when stop() returned {snap[-1]}" if whys[0][1] == "stopret" and snap else \
             f"status {o['status']}, file at process end {o['lines']}"
         ck.violation(sig, f"{scn_line(s)} -> {seen}: {whys[0][0]}",
-                     {"scenario": scn_line(s), "harness": "h_life", "observation": o, "trace": trace_of(o),
+                     {"scenario": scn_line(s), "harness": "h_life", "observation": o, "trace": trace_of(o, s["attrs"]["wait"]),
                       "contract_says": [w[0] for w in whys], "reruns": [{"status": r["status"], "lines": r["lines"]} for r in reruns],
                       "same_class_scenarios": [scn_line(pairs[i][0]) for i in by_sig[sig][:10]]})
     ck.extra["rejection_classes"] = {k: len(v) for k, v in by_sig.items()}
@@ -591,7 +665,8 @@ def run(ck):
 def replay(ck, path):
     j = json.loads(open(path).read())["replay"]
     exe = build_harness()
-    s = {"id": "replay", "steps": j["scenario"].split()[8:], "attrs": {}}
+    f = j["scenario"].split()
+    s = {"id": "replay", "steps": f[9:], "attrs": {"wait": int(f[8])}}
     line = "replay " + " ".join(j["scenario"].split()[1:])
     obs = run_scenarios(exe, [line], timeout=120)
     o = obs["replay"]
